@@ -289,6 +289,27 @@ def run(ctx):
         others.append((None, l, e))
     run_lines(others, "other_classes")
 
+    # ------------------------------------------------------------------ spec stream: the Lean specification's renderer
+    # Lines with explicit layout: the text the theorems speak about (Spec.X86R.renderLine) must be the
+    # text this harness renders, must be `valid`, and the real parser must return the AST on it.
+    spec_lines = [G.gen_spec_line(rng) for _ in range(max(800, vol["lines"] // 6))]
+    replies = ctx.driver.ask(["x86spec " + G.encode_spec(l) for l in spec_lines])
+    n_spec_tie = 0
+    for l, rep in zip(spec_lines, replies):
+        parts = rep.split(" ", 2)
+        text = G.render_spec(l)
+        exp = G.canon_expected("instruction", ast=l["ast"])
+        got = G.impl_line(px, text, 7)
+        if len(parts) != 3 or parts[0] != "1" or core.unesc(parts[1]) != text or parts[2] != exp:
+            n_spec_tie += 1
+            note_corr("spec-renderer", {"line": text, "lean": rep[:400], "expected": exp})
+        if got != exp:
+            note_violation("parse_line(%r) = %s, written: %s" % (text, got, exp),
+                           {"kind": "line", "line": text, "expected": exp, "observed": got, "ast": l["ast"]},
+                           key=FIXED_KEY if bare_first(l["ast"]) else None)
+    ctx.count("lines_spec_renderer", len(spec_lines))
+    ctx.count("spec_renderer_disagreements", n_spec_tie)
+
     # ------------------------------------------------------------------ extended stream (model vs implementation only)
     ext = [G.gen_extended_line(rng) for _ in range(max(1500, vol["lines"] // 4))]
     impl = [G.impl_line(px, l, 7) for l in ext]
@@ -365,7 +386,7 @@ def run(ctx):
     ctx.count("correspondence_disagreements", n_corr)
     ctx.count("oracle_failures", n_spec)
     ctx.cov["distribution"] = dist
-    ctx.cov["evaluations"] = len(CORPUS) + len(enum) + len(items) + len(others) + nfl
+    ctx.cov["evaluations"] = len(CORPUS) + len(enum) + len(items) + len(others) + nfl + len(spec_lines)
     ctx.cov["traces_validated_against_impl"] = ctx.cov["evaluations"] + len(mal) + len(ext)
     ctx.cov["distinct_nontrivial"] = len(seen) + len(enum)
     ctx.cov["rule"] = ("lines rendered from random instruction ASTs (0-4 operands: registers of all GPR widths and "
